@@ -115,6 +115,55 @@ def gnuHash (name : List (BitVec 8)) : BitVec 32 := name.foldl gnuStep 5381
 
 def gnuHashNat (name : List Nat) : Nat := name.foldl (fun h c => (h * 33 + c) % 4294967296) 5381
 
+/-! ### hash sections built from the ABI definitions -/
+
+/-- gABI figure 5-12/5-13, the usual construction: symbols are entered in index order, each at
+    the head of its bucket's chain.  `hs` = hash values of the symbols 1, 2, … (index 0 is the
+    null symbol and is not entered). -/
+def sysvInsert (nb : Nat) (st : List Nat × List Nat) (ih : Nat × Nat) : List Nat × List Nat :=
+  (st.1.set (ih.2 % nb) ih.1, st.2.set ih.1 (st.1.getD (ih.2 % nb) 0))
+
+def sysvTables (nb : Nat) (hs : List Nat) : List Nat × List Nat :=
+  ((List.range' 1 hs.length).zip hs).foldl (sysvInsert nb) (List.replicate nb 0, List.replicate (hs.length + 1) 0)
+
+/-- the words of the section: nbucket, nchain, buckets, chains -/
+def sysvWords (nb : Nat) (hs : List Nat) : List Nat :=
+  [nb, hs.length + 1] ++ (sysvTables nb hs).1 ++ (sysvTables nb hs).2
+
+def buildSysv (e : Enc) (nb : Nat) (hs : List Nat) : Bytes :=
+  ((sysvWords nb hs).map (encodeInt e 4)).flatten
+
+/-- the SysV section for an *empty* symbol table: `nchain = 0`, all buckets empty -/
+def buildSysvEmpty (e : Enc) (nb : Nat) : Bytes :=
+  (([nb, 0] ++ List.replicate nb 0).map (encodeInt e 4)).flatten
+
+/-- GNU hash section (as `ld --hash-style=gnu` lays it out): `hs` = GNU hash values of the symbols
+    `so, so+1, …` (grouped by bucket for lookups to be complete; well-formedness does not need it).
+    Bloom word width `8*W` bits. -/
+def gnuBloomBits (C shift h : Nat) : Nat := (1 <<< (h % C)) ||| (1 <<< ((h >>> shift) % C))
+
+def gnuBloom (C bs shift : Nat) (hs : List Nat) : List Nat :=
+  hs.foldl (fun bl h => bl.set ((h / C) % bs) (bl.getD ((h / C) % bs) 0 ||| gnuBloomBits C shift h))
+    (List.replicate bs 0)
+
+def gnuBucketStep (nbk so : Nat) (bk : List Nat) (kh : Nat × Nat) : List Nat :=
+  if bk.getD (kh.2 % nbk) 0 = 0 then bk.set (kh.2 % nbk) (so + kh.1) else bk
+
+def gnuBuckets (nbk so : Nat) (hs : List Nat) : List Nat :=
+  ((List.range' 0 hs.length).zip hs).foldl (gnuBucketStep nbk so) (List.replicate nbk 0)
+
+/-- chain words: the hash with bit 0 replaced by "last of its bucket" -/
+def gnuChain (nbk : Nat) : List Nat → List Nat
+  | [] => []
+  | [h] => [h / 2 * 2 + 1]
+  | h :: h' :: rest => (h / 2 * 2 + (if h' % nbk ≠ h % nbk then 1 else 0)) :: gnuChain nbk (h' :: rest)
+
+def buildGnu (e : Enc) (W : Nat) (nbk so bs shift : Nat) (hs : List Nat) : Bytes :=
+  (([nbk, so, bs, shift].map (encodeInt e 4)).flatten ++
+   ((gnuBloom (8 * W) bs shift hs).map (encodeInt e W)).flatten ++
+   ((gnuBuckets nbk so hs).map (encodeInt e 4)).flatten) ++
+   ((gnuChain nbk hs).map (encodeInt e 4)).flatten
+
 /-! ### reference lookup: linear scan -/
 
 /-- index of the first entry for which `p` holds -/
